@@ -31,26 +31,43 @@ func answer(w *gldap.ResponseWriter, r *gldap.Request) { answerCode(w, r, 0) }
 
 // answerCode: the same with a result code of the handler's choosing (applications use codes of their own too).
 func answerCode(w *gldap.ResponseWriter, r *gldap.Request, code int) {
+	// an application builds its option values once and uses them for every response, from every handler goroutine
+	rc := sharedCodeOpt(code)
 	switch r.VerifRouteOp() {
 	case "bind":
-		_ = w.Write(r.NewBindResponse(gldap.WithResponseCode(code)))
+		_ = w.Write(r.NewBindResponse(rc))
 	case "search":
-		_ = w.Write(r.NewSearchDoneResponse(gldap.WithResponseCode(code)))
+		_ = w.Write(r.NewSearchDoneResponse(rc))
 	case "modify":
-		_ = w.Write(r.NewModifyResponse(gldap.WithResponseCode(code)))
+		_ = w.Write(r.NewModifyResponse(rc))
 	case "add":
-		_ = w.Write(r.NewResponse(gldap.WithApplicationCode(gldap.ApplicationAddResponse), gldap.WithResponseCode(code)))
+		_ = w.Write(r.NewResponse(sharedAddOpt, rc))
 	case "delete":
-		_ = w.Write(r.NewResponse(gldap.WithApplicationCode(gldap.ApplicationDelResponse), gldap.WithResponseCode(code)))
+		_ = w.Write(r.NewResponse(sharedDelOpt, rc))
 	default:
-		_ = w.Write(r.NewExtendedResponse(gldap.WithResponseCode(code)))
+		_ = w.Write(r.NewExtendedResponse(rc))
 	}
+}
+
+var (
+	sharedCodeOpts sync.Map // result code -> the one gldap.Option value made for it
+	sharedAddOpt   = gldap.WithApplicationCode(gldap.ApplicationAddResponse)
+	sharedDelOpt   = gldap.WithApplicationCode(gldap.ApplicationDelResponse)
+)
+
+func sharedCodeOpt(code int) gldap.Option {
+	if o, ok := sharedCodeOpts.Load(code); ok {
+		return o.(gldap.Option)
+	}
+	o, _ := sharedCodeOpts.LoadOrStore(code, gldap.WithResponseCode(code))
+	return o.(gldap.Option)
 }
 
 type entryRec struct {
 	conn, reqID int
 	msgID       int64
 	seq         int
+	req         *gldap.Request // kept by the application after its handler has returned (a watcher, an audit trail)
 }
 
 type recorder struct {
@@ -63,14 +80,30 @@ type recorder struct {
 func (rc *recorder) enter(r *gldap.Request) {
 	rc.mu.Lock()
 	rc.seq++
-	rc.entries = append(rc.entries, entryRec{r.ConnectionID(), r.ID, r.VerifMessage().GetID(), rc.seq})
+	rc.entries = append(rc.entries, entryRec{r.ConnectionID(), r.ID, r.VerifMessage().GetID(), rc.seq, r})
 	rc.mu.Unlock()
+}
+
+// stale: every request the handlers were given still reports the connection and number it reported then, however
+// many requests have been served since on this and on other connections ("" if so).
+func (rc *recorder) stale() string {
+	rc.mu.Lock()
+	defer rc.mu.Unlock()
+	for _, e := range rc.entries {
+		if e.req == nil {
+			continue
+		}
+		if c, n := e.req.ConnectionID(), e.req.ID; c != e.conn || n != e.reqID {
+			return fmt.Sprintf("the request that arrived as %d/%d (connection/number) now reports ConnectionID %d and ID %d", e.conn, e.reqID, c, n)
+		}
+	}
+	return ""
 }
 
 func (rc *recorder) exit(r *gldap.Request) {
 	rc.mu.Lock()
 	rc.seq++
-	rc.exits = append(rc.exits, entryRec{r.ConnectionID(), r.ID, r.VerifMessage().GetID(), rc.seq})
+	rc.exits = append(rc.exits, entryRec{r.ConnectionID(), r.ID, r.VerifMessage().GetID(), rc.seq, nil})
 	rc.mu.Unlock()
 }
 
@@ -167,7 +200,8 @@ func (c06Stream) Impl(c Case) string {
 		all.Done()
 		<-released
 		// all handlers answer at the same moment, many of them with result codes of the application's own
-		answerCode(w, r, []int{0, 0, 1000, 1001, 4096, 32000, 123}[int(r.VerifMessage().GetID())%7]+int(r.VerifMessage().GetID()%3))
+		// (70000: outside the range of a result code on the wire; whatever gldap does with it, it does it to its own copy)
+		answerCode(w, r, []int{0, 0, 1000, 1001, 4096, 32000, 123, 70000}[int(r.VerifMessage().GetID())%8]+int(r.VerifMessage().GetID()%3))
 	}
 	mux := allRoutes(h, startTLSHandler(srvTLS, 0, 0), nil)
 	if p["routes"] == "none" && mode != "starttls" {
@@ -255,6 +289,9 @@ func (c06Stream) Impl(c Case) string {
 				}
 			}
 		}
+	}
+	if st := rc.stale(); st != "" && verdict == "ok" {
+		verdict = st
 	}
 	for _, cl := range clients {
 		cl.close()
